@@ -273,8 +273,8 @@ def tlc(module, cfg=None, env=None, workers=1, timeout=600, simulate=None, depth
     if m:
         r.violation = m.group(1)
         return r
-    if re.search(r"Temporal properties were violated|Action property .* is violated", r.out):
-        m = re.search(r"Action property (\S+)", r.out)
+    if re.search(r"Temporal propert(y|ies) .*(was|were) violated|Action property .* is violated", r.out):
+        m = re.search(r"Action property (\S+)", r.out) or re.search(r"Temporal property (\S+) was violated", r.out)
         r.violation = m.group(1) if m else "temporal"
         return r
     if "Deadlock reached" in r.out:
